@@ -35,6 +35,7 @@ def main():
     checks = [prop]
     suite = True
     dest = "tests"
+    pre = ""
     args = sys.argv[4:]
     i = 0
     while i < len(args):
@@ -44,6 +45,8 @@ def main():
             suite = False; i += 1
         elif args[i] == "--demo-dest":
             dest = args[i + 1]; i += 2
+        elif args[i] == "--pre":
+            pre = args[i + 1] + " >/dev/null 2>&1; "; i += 2
         else:
             i += 1
     wt = "/tmp/mut-" + name
@@ -67,7 +70,7 @@ def main():
             os.makedirs(os.path.join(wt, dest), exist_ok=True)
             shutil.copy(os.path.join(src, demo_rs[0]), os.path.join(wt, dest, tname + ".rs"))
             crate_dir = os.path.dirname(dest) or "."
-            run_demo = "cd %s && cargo test --offline --test %s 2>&1 | tail -15" % (os.path.join(wt, crate_dir), tname)
+            run_demo = "cd %s && %scargo test --offline --test %s 2>&1 | tail -15" % (os.path.join(wt, crate_dir), pre, tname)
         if run_demo:
             rc, out = sh(run_demo)
             ok0 = "test result: ok" in out and "FAILED" not in out
